@@ -60,6 +60,10 @@ func (k *Key) Private() *packet.PrivateKey {
 }
 
 func (k *Key) Validate() error {
+	// a JSON null in the list of keys of a stored version
+	if k == nil {
+		return fmt.Errorf("nil key")
+	}
 	if k.public == nil {
 		return fmt.Errorf("nil public key")
 	}
